@@ -60,6 +60,7 @@ def _groups(tier, seed):
     for fk in ('chmod000', 'open:EACCES', 'read:0', 'read:1', 'read:8192', 'read:8193', 'read:32768', 'read:40000', 'read:65536', 'read:65537'):
         yield {'kind': 'file', 'fault': fk}
     yield {'kind': 'links'}
+    yield {'kind': 'hardlink'}
     yield {'kind': 'media'}
     for mode in ('', ' dfs'):
         for where in ('top', 'sub'):
@@ -373,6 +374,29 @@ def eval_group(env, group, tier):
                     if user == NOBODY and any(c not in ('', 'false') for c in rows['secret'][3:]):
                         ok, why = False, ('secret', rows['secret'])
                 emit(sub, ok, 'link-or-unreadable-target', dict(o.brief(), why=why, query=q))
+        elif kind == 'hardlink':
+            # one file under two names, one of them in a directory that can be listed but not entered: the readable name has its content columns,
+            # whichever name is met first (by another root, a deeper level, the other traversal order)
+            import hashlib
+            data = b'shared content\nof two names\n'
+            core.materialise(root, {'open': D({'deep': D({'name2': F(data=data)}), 'plain': F(data=b'p\n')}),
+                                    'gate': D({'name1': {'t': 'f', 'link': 'open/deep/name2'}, 'other': F(data=b'o\n')})})
+            os.chmod(os.path.join(root, 'gate'), 0o444)
+            cols = ['name', 'sha1', 'sha256', 'line_count', 'contains(shared)', 'size']
+            want = ('name2', hashlib.sha1(data).hexdigest(), hashlib.sha256(data).hexdigest(), '2', 'true', str(len(data)))
+            try:
+                for frm in ('gate, open', 'open, gate', '.', '. dfs', 'gate, open dfs', 'gate, open/deep'):
+                    for tail in ('', " where name like 'name%' or sha1 = 'x'", ' order by sha1, name'):
+                        sub = ['hardlink', frm, tail]
+                        if only is not None and sub != only:
+                            continue
+                        q = ', '.join(cols) + ' from ' + frm + tail + ' into list'
+                        o = env.run([q], cwd=root, user=NOBODY, preload=True, env={'FSX_READDIR': 'sorted'})
+                        rows = {r[0]: tuple(r) for r in (o.rows(len(cols)) or [])}
+                        ok = not o.panicked and not o.timeout and o.rc in (0, 1) and rows.get('name2') == want
+                        emit(sub, ok, 'readable-name-of-a-shared-file', dict(o.brief(), got=rows.get('name2'), expected=want, query=q))
+            finally:
+                os.chmod(os.path.join(root, 'gate'), 0o755)
         elif kind == 'archive':
             import io, zipfile
             b_ = io.BytesIO()
